@@ -99,7 +99,10 @@ inductive Callback
 
 inductive Assigned
   | jid (j : String)
-  | random                       -- bare remote address with a fresh random resource
+  /-- bare remote address with a random resource: the `k`-th value the random source
+  (`attr.RandomID`) handed out.  The source is an oracle that yields a value it never yielded
+  before on every CALL (trusted: 64 random bits), so distinct `k` are distinct resources. -/
+  | random (k : Nat)
   deriving DecidableEq, Repr
 
 /-- the reply IQ -/
@@ -131,15 +134,46 @@ def addrOf : JidField → String
 not parse is not answered.  The reply is addressed back: its `to` is the request's `from`,
 its `from` the request's `to`. -/
 def server (remote : String) (reqId : String) (reqRes : Option String) (reqTo reqFrom : JidField)
-    (cb : Callback) : SRes :=
+    (cb : Callback) (fresh : Nat := 0) : SRes :=
   if reqTo = .invalid ∨ reqFrom = .invalid then ⟨none, none, some "jiderr", false⟩ else
   let args := some (remote, reqRes.getD "")
   let rep (t : String) (a : Option Assigned) (c : Option String) : ReplyIQ :=
     ⟨t, reqId, addrOf reqFrom, addrOf reqTo, a, c⟩
   match cb with
-  | .default => ⟨some (rep "result" (some .random) none), none, none, true⟩
+  | .default => ⟨some (rep "result" (some (.random fresh)) none), none, none, true⟩
   | .address j => ⟨some (rep "result" (some (.jid j)) none), args, none, true⟩
   | .stanzaError c => ⟨some (rep "error" none (some c)), args, some ("stanza:" ++ c), false⟩
   | .failure => ⟨none, args, some "cberr", false⟩
+
+/-! ### many sessions on one feature value: the random source is called once per session -/
+
+structure Req where
+  remote : String
+  reqId : String
+  reqRes : Option String
+  reqTo : JidField
+  reqFrom : JidField
+  cb : Callback
+  deriving Repr
+
+/-- does serving this request call the random source? -/
+def Req.drawsRandom (r : Req) : Bool :=
+  r.cb == .default && !(r.reqTo == .invalid || r.reqFrom == .invalid)
+
+/-- the sessions served one after the other (in the order in which they reach the callback),
+`k` random values having been handed out before -/
+def serveAll : Nat → List Req → List SRes
+  | _, [] => []
+  | k, r :: rs =>
+    server r.remote r.reqId r.reqRes r.reqTo r.reqFrom r.cb k ::
+      serveAll (if r.drawsRandom then k + 1 else k) rs
+
+/-- the random values that were assigned -/
+def randomIds : List SRes → List Nat
+  | [] => []
+  | r :: rs =>
+    match r.reply with
+    | some ⟨_, _, _, _, some (.random k), _⟩ => k :: randomIds rs
+    | _ => randomIds rs
 
 end XmppModel.Bind
